@@ -4,11 +4,16 @@ Model of the memoisation of derived stream properties
 that rebind `_property_cache` / `_property_cache_key`) in thermosteam/_stream.py and
 thermosteam/_multi_stream.py.  Core Lean only.
 
-The observable state a property value may depend on (phase(s), T, P and the
-composition) is abstracted to a *key id*: the adapter numbers the distinct
-(literal, composition) pairs it sees, equal ids ⇔ equal keys.  A stored value is
-represented by the key id at which it was computed, so "the value returned is
-`calc name (current state)`" becomes "the returned key id is the current one".
+The observable state a property value may depend on has two parts.  The part the
+memo is keyed on — phase(s), T, P and the composition — is abstracted to a *key
+id*: the adapter numbers the distinct (literal, composition) pairs it sees, equal
+ids ⇔ equal keys.  The part the memo is NOT keyed on — the property package the
+stream uses (`_thermo`, i.e. the mixture whose functions compute the value) — is an
+explicit field of the model: it changes only through `_reset_thermo` / `copy(thermo=)`,
+and the code's obligation is to reset the memo when it changes.  A stored value is
+represented by the pair (key id, package id) at which it was computed, so "the
+value returned is `calc package name (current state)`" becomes "the returned pair
+is (current key id, current package id)".
 -/
 namespace ThermoVerif.PropCache
 
@@ -21,12 +26,14 @@ structure Obj where
   /-- identity of the `_streams` dict (phase views `ms[phase]`) whose members' caches
   `MultiStream.reset_cache` also resets; a proxy of a MultiStream holds the same dict -/
   views : Nat
+  /-- identity of the property package (`_thermo`) the object computes with -/
+  pkg : Nat
   deriving Repr
 
 structure World where
   objs : List Obj
-  /-- dict id ↦ entries `name ↦ key id at which the stored value was computed` -/
-  dicts : List (List (String × Nat))
+  /-- dict id ↦ entries `name ↦ (key id, package id) at which the stored value was computed` -/
+  dicts : List (List (String × (Nat × Nat)))
   /-- `_streams` dict id ↦ the view objects registered in it -/
   vlists : List (List Nat)
   deriving Repr
@@ -37,9 +44,9 @@ def World.obj? (w : World) (o : Nat) : Option Obj := w.objs[o]?
 
 def World.setObj (w : World) (o : Nat) (x : Obj) : World := { w with objs := w.objs.set o x }
 
-def World.dictOf (w : World) (d : Nat) : List (String × Nat) := w.dicts.getD d []
+def World.dictOf (w : World) (d : Nat) : List (String × (Nat × Nat)) := w.dicts.getD d []
 
-def World.setDict (w : World) (d : Nat) (e : List (String × Nat)) : World :=
+def World.setDict (w : World) (d : Nat) (e : List (String × (Nat × Nat))) : World :=
   { w with dicts := w.dicts.set d e }
 
 /-- `{}`: a brand-new dict object. -/
@@ -47,11 +54,14 @@ def World.newDict (w : World) : World × Nat :=
   ({ w with dicts := w.dicts ++ [[]] }, w.dicts.length)
 
 /-- A stream object whose constructor ran `reset_cache()` (constructors, `copy`,
-`flow_proxy`, `from_data`, unpickling). -/
-def World.newObj (w : World) : World × Nat :=
+`flow_proxy`, `from_data`, unpickling), using package `p`. -/
+def World.newObj (w : World) (p : Nat) : World × Nat :=
   let (w1, d) := w.newDict
-  ({ w1 with objs := w1.objs ++ [{ key := none, dict := d, views := w1.vlists.length }],
+  ({ w1 with objs := w1.objs ++ [{ key := none, dict := d, views := w1.vlists.length, pkg := p }],
              vlists := w1.vlists ++ [[]] }, w1.objs.length)
+
+/-- the package an object currently computes with (`0` for an id that names no object) -/
+def World.pkgOf (w : World) (o : Nat) : Nat := match w.obj? o with | some x => x.pkg | none => 0
 
 def World.viewsOf (w : World) (x : Obj) : List Nat := w.vlists.getD x.views []
 
@@ -71,12 +81,13 @@ def World.reset (w : World) (o : Nat) : World :=
 
 /-- `Stream.proxy()`: the proxy gets its own empty memo (the repaired behaviour; the
 original code shared the dict but not the key) and, for a MultiStream, its own empty
-`_streams` dict (repair db10e94). -/
-def World.proxy (w : World) (_o : Nat) : World × Nat := w.newObj
+`_streams` dict (repair db10e94).  It takes over the original's package (and keeps it: a later
+package change of the original does not reach the proxy's `_thermo`). -/
+def World.proxy (w : World) (o : Nat) : World × Nat := w.newObj (w.pkgOf o)
 
 /-- `MultiStream.__getitem__(phase)` on first access: a view object with its own memo. -/
 def World.view (w : World) (o : Nat) : World × Nat :=
-  let (w1, v) := w.newObj
+  let (w1, v) := w.newObj (w.pkgOf o)
   match w1.obj? o with
   | none => (w1, v)
   | some x => ({ w1 with vlists := w1.vlists.set x.views (w1.viewsOf x ++ [v]) }, v)
@@ -94,7 +105,19 @@ inductive Mut where
   | collapse
   /-- `Stream.phases = <several>` (single → multi): a new empty `_streams` dict is bound, memo untouched -/
   | rebind
+  /-- `_reset_thermo(p)`: nothing when `p` is the package in use; otherwise the object and (for a
+  MultiStream) every phase view created so far take the new package and `reset_cache()` runs -/
+  | thermo (p : Nat)
   deriving DecidableEq, Repr
+
+/-- one object's share of `_reset_thermo(p)`: the package is rebound and `reset_cache()` binds a new
+memo dict and forgets the key (the code does the two in this order per object; the model does both at once) -/
+def World.resetPkgOne (p : Nat) (w : World) (o : Nat) : World :=
+  match w.obj? o with
+  | none => w
+  | some x =>
+    let (w1, d) := w.newDict
+    w1.setObj o { x with key := none, dict := d, pkg := p }
 
 def World.mut (w : World) (o : Nat) : Mut → World
   | .state => w
@@ -107,16 +130,23 @@ def World.mut (w : World) (o : Nat) : Mut → World
     match w.obj? o with
     | none => w
     | some x => { (w.setObj o { x with views := w.vlists.length }) with vlists := w.vlists ++ [[]] }
+  | .thermo p =>
+    match w.obj? o with
+    | none => w
+    | some x =>
+      if x.pkg = p then w
+      else ((w.viewsOf x).foldl (World.resetPkgOne p) w).resetPkgOne p o
 
 inductive Outcome where
   | hit | miss
   deriving DecidableEq, Repr
 
 /-- `_get_property(name)` on a non-empty stream whose current key id is `k`.
-Returns the outcome and the key id the returned value was computed at. -/
-def World.read (w : World) (o : Nat) (name : String) (k : Nat) : World × Outcome × Nat :=
+Returns the outcome and the (key id, package id) the returned value was computed at: a miss computes
+with the functions of the object's current package. -/
+def World.read (w : World) (o : Nat) (name : String) (k : Nat) : World × Outcome × (Nat × Nat) :=
   match w.obj? o with
-  | none => (w, .miss, k)
+  | none => (w, .miss, (k, 0))
   | some x =>
     let e := w.dictOf x.dict
     if x.key = some k then
@@ -124,10 +154,10 @@ def World.read (w : World) (o : Nat) (name : String) (k : Nat) : World × Outcom
       | some v => (w, .hit, v)
       | none =>
         -- same key, property not yet memoised: compute and add
-        ((w.setObj o { x with key := some k }).setDict x.dict ((name, k) :: e), .miss, k)
+        ((w.setObj o { x with key := some k }).setDict x.dict ((name, (k, x.pkg)) :: e), .miss, (k, x.pkg))
     else
       -- state changed since the memo was filled: `property_cache.clear()`, rebind key, compute
-      ((w.setObj o { x with key := some k }).setDict x.dict [(name, k)], .miss, k)
+      ((w.setObj o { x with key := some k }).setDict x.dict [(name, (k, x.pkg))], .miss, (k, x.pkg))
 
 /-- `_get_property(name)` when the mixture function raises (e.g. a chemical lacks the model for
 this phase): the memo was already cleared and re-keyed if the state had changed, nothing is stored. -/
@@ -140,7 +170,8 @@ def World.readFail (w : World) (o : Nat) (k : Nat) : World :=
 
 /-- Operations of a history. -/
 inductive Op where
-  | new
+  /-- a new stream on package `p`; also `copy()` / `copy(thermo=p)` / `flow_proxy()` of an existing one -/
+  | new (p : Nat)
   | proxy (o : Nat)
   | view (o : Nat)
   | mutate (o : Nat) (m : Mut)
@@ -149,7 +180,7 @@ inductive Op where
   deriving Repr
 
 def World.step (w : World) : Op → World
-  | .new => w.newObj.1
+  | .new p => (w.newObj p).1
   | .proxy o => (w.proxy o).1
   | .view o => (w.view o).1
   | .mutate o m => w.mut o m
